@@ -271,8 +271,11 @@ impl<'a> Runner<'a> {
         where_.dedup();
         let place = if where_.is_empty() {
             format!("{}:{}", origin_class(origin), failure_tag(&f))
+        } else if where_.len() == 1 {
+            where_[0].clone()
         } else {
-            where_.join("+")
+            // several comments are needed together: class of the (alphabetically) first gap
+            format!("multi:{}", where_[0])
         };
         let fp = format!("{}{}:{}", f.kind, if crlf_needed { ":crlf" } else { "" }, place);
         self.out.count(&format!("oracle:fail:{}", f.kind));
